@@ -149,7 +149,92 @@ func (a *nonnil) mayNilAt(v ssa.Value, at ssa.Instruction) bool {
 	if nilGuarded(v, at) {
 		return false
 	}
+	// `val, err = …` on several branches, then `if err != nil { return }`:
+	// the edges on which the error is surely set do not reach the use
+	if ph, ok := v.(*ssa.Phi); ok && at != nil {
+		for _, ins := range ph.Block().Instrs {
+			eph, ok := ins.(*ssa.Phi)
+			if !ok {
+				break
+			}
+			if eph == ph || !isErrorType(eph.Type()) || !knownNilAt(eph, at) {
+				continue
+			}
+			may := false
+			for i, e := range ph.Edges {
+				if errorSurelySet(eph.Edges[i], nil) {
+					continue
+				}
+				if a.mayNil(e, map[ssa.Value]bool{ph: true}) {
+					may = true
+				}
+			}
+			return may
+		}
+	}
 	return a.mayNil(v, map[ssa.Value]bool{})
+}
+
+// knownNilAt: the use at `at` is dominated by the nil edge of a test of v
+// against nil.
+func knownNilAt(v ssa.Value, at ssa.Instruction) bool {
+	if at == nil || v.Referrers() == nil {
+		return false
+	}
+	for _, ref := range liveRefs(v) {
+		bo, ok := ref.(*ssa.BinOp)
+		if !ok || (bo.Op != token.EQL && bo.Op != token.NEQ) || !(isNilConst(bo.X) || isNilConst(bo.Y)) {
+			continue
+		}
+		for _, r2 := range liveRefs(bo) {
+			iff, ok := r2.(*ssa.If)
+			if !ok {
+				continue
+			}
+			isNil := iff.Block().Succs[0]
+			if bo.Op == token.NEQ {
+				isNil = iff.Block().Succs[1]
+			}
+			if len(isNil.Preds) == 1 && (isNil == at.Block() || isNil.Dominates(at.Block())) {
+				return true
+			}
+		}
+	}
+	return false
+}
+
+// errorSurelySet: the error value is not nil: freshly made (fmt.Errorf,
+// errors.New, a pointer to a new value put into the interface) or, at the
+// instruction, behind a test that it is not nil.
+func errorSurelySet(v ssa.Value, at ssa.Instruction) bool {
+	return errorSurelySetD(v, at, 0)
+}
+
+func errorSurelySetD(v ssa.Value, at ssa.Instruction, depth int) bool {
+	if v == nil || depth > 6 {
+		return false
+	}
+	switch x := v.(type) {
+	case *ssa.Call:
+		if c := x.Call.StaticCallee(); c != nil {
+			switch c.String() {
+			case "fmt.Errorf", "errors.New":
+				return true
+			}
+		}
+	case *ssa.MakeInterface:
+		if _, ok := x.X.(*ssa.Alloc); ok {
+			return true
+		}
+	case *ssa.Phi:
+		for _, e := range x.Edges {
+			if !errorSurelySetD(e, nil, depth+1) {
+				return at != nil && nilGuarded(v, at)
+			}
+		}
+		return true
+	}
+	return at != nil && nilGuarded(v, at)
 }
 
 func (a *nonnil) mayNil(v ssa.Value, seen map[ssa.Value]bool) bool {
@@ -175,6 +260,12 @@ func (a *nonnil) mayNil(v ssa.Value, seen map[ssa.Value]bool) bool {
 	case *ssa.Call:
 		if c := v.Call.StaticCallee(); c != nil && a.mayNilFn[c] {
 			return true
+		}
+	case *ssa.Extract:
+		if cl, ok := v.Tuple.(*ssa.Call); ok && v.Index == 0 {
+			if c := cl.Call.StaticCallee(); c != nil && a.mayNilFn[c] {
+				return true
+			}
 		}
 	case *ssa.UnOp:
 		if v.Op == token.MUL {
@@ -283,10 +374,16 @@ func holesPossible(ms *ssa.MakeSlice) string {
 func ruleNonNil(p *Program, r *Reporter) {
 	a := &nonnil{mayNilFn: map[*ssa.Function]bool{}}
 	var objFns []*ssa.Function
+	pairFns := map[*ssa.Function]bool{}
 	for _, fn := range p.LibFns {
 		rs := sigResults(fn)
 		if len(rs) == 1 && isObjectIface(rs[0]) {
 			objFns = append(objFns, fn)
+		}
+		// (object, error): the object is there whenever the error is not
+		if len(rs) == 2 && isObjectIface(rs[0]) && isErrorType(rs[1]) {
+			objFns = append(objFns, fn)
+			pairFns[fn] = true
 		}
 	}
 	type bad struct {
@@ -304,6 +401,9 @@ func ruleNonNil(p *Program, r *Reporter) {
 				ret, ok := terminator(b).(*ssa.Return)
 				if !ok || (len(b.Preds) == 0 && b != fn.Blocks[0]) {
 					continue
+				}
+				if pairFns[fn] && len(ret.Results) == 2 && errorSurelySet(returnOperand(ret, 1), ret) {
+					continue // the error says there is no object
 				}
 				if a.mayNilAt(returnOperand(ret, 0), ret) {
 					a.mayNilFn[fn] = true
@@ -324,6 +424,9 @@ func ruleNonNil(p *Program, r *Reporter) {
 	}
 	for _, fn := range objFns {
 		key := p.FnName(fn) + " returns a non-nil object"
+		if pairFns[fn] {
+			key += " whenever its error is nil"
+		}
 		if pos, ok := isBad[fn]; ok {
 			r.Fail(key, p.Pos(pos), "this function can return a nil object.Object (a nil constant, a variable that may still hold its zero value, or the result of a function that can): the caller pushes or returns it and the next method call on it panics — outside Execute's recover when it is the script's result")
 		} else {
@@ -765,6 +868,44 @@ func hasDepthGuard(p *Program, comp []*ssa.Function) (bool, string) {
 				if !rec && len(b.Succs[1-si].Preds) == 1 {
 					passOf[f] = append(passOf[f], b.Succs[1-si])
 				}
+			}
+		}
+		// the same test kept in a helper that says whether one more level is
+		// allowed: the call's result decides, and the refusing side returns
+		// without recursing
+		for _, b := range f.Blocks {
+			iff, ok := terminator(b).(*ssa.If)
+			if !ok {
+				continue
+			}
+			cond, neg := iff.Cond, false
+			if u, ok := cond.(*ssa.UnOp); ok && u.Op == token.NOT {
+				cond, neg = u.X, true
+			}
+			cl, ok := cond.(*ssa.Call)
+			if !ok || cl.Call.StaticCallee() == nil {
+				continue
+			}
+			passWhen, ok := depthGuardHelper(cl.Call.StaticCallee())
+			if !ok {
+				continue
+			}
+			passIdx := 0
+			if passWhen == neg {
+				passIdx = 1
+			}
+			sc := b.Succs[1-passIdx]
+			if _, ok := terminator(sc).(*ssa.Return); !ok {
+				continue
+			}
+			rec := false
+			for _, ins := range sc.Instrs {
+				if cc := callOf(ins); cc != nil && (cc.StaticCallee() == nil || in[cc.StaticCallee()]) {
+					rec = true
+				}
+			}
+			if !rec && len(b.Succs[passIdx].Preds) == 1 {
+				passOf[f] = append(passOf[f], b.Succs[passIdx])
 			}
 		}
 		if len(passOf[f]) > 0 {
@@ -1483,17 +1624,26 @@ func structuralTreeWalk(comp []*ssa.Function) bool {
 		if f.Parent() != nil {
 			return false
 		}
-		// the node parameter: first parameter of an ast type
-		var node *ssa.Parameter
-		idx := -1
-		for i, pr := range f.Params {
+		// the node parameters: the parameters of an ast type (a part of the
+		// walk may be handed several pieces of one node)
+		var nodes []*ssa.Parameter
+		for _, pr := range f.Params {
 			if isASTish(pr.Type()) {
-				node, idx = pr, i
-				break
+				nodes = append(nodes, pr)
 			}
 		}
-		if node == nil {
+		if len(nodes) == 0 {
 			return false
+		}
+		// part: the argument is a chain of selections from one of the node
+		// parameters; strict when it selects at least once
+		part := func(arg ssa.Value) (ok, strict bool) {
+			for _, nd := range nodes {
+				if directPart(arg, nd, 0) == "" {
+					return true, strictPart(arg, nd, 0)
+				}
+			}
+			return false, false
 		}
 		for _, b := range f.Blocks {
 			for _, ins := range b.Instrs {
@@ -1502,14 +1652,13 @@ func structuralTreeWalk(comp []*ssa.Function) bool {
 					continue
 				}
 				var callee *ssa.Function
-				var arg ssa.Value
+				var args []ssa.Value
 				if cal := cc.StaticCallee(); cal != nil {
 					callee = cal
-					// the callee's node parameter
+					// the callee's node parameters
 					for i, pr := range cal.Params {
 						if isASTish(pr.Type()) && i < len(cc.Args) {
-							arg = cc.Args[i]
-							break
+							args = append(args, cc.Args[i])
 						}
 					}
 				} else if cc.IsInvoke() {
@@ -1523,23 +1672,32 @@ func structuralTreeWalk(comp []*ssa.Function) bool {
 					if !re {
 						continue
 					}
-					arg = cc.Value
+					args = []ssa.Value{cc.Value}
 					callee = f // treat as a call into the component
 				}
 				if callee == nil || !in[callee] {
 					continue
 				}
-				if arg == nil || directPart(arg, node, 0) != "" {
+				if len(args) == 0 {
 					return false
+				}
+				allStrict := true
+				for _, arg := range args {
+					ok, strict := part(arg)
+					if !ok {
+						return false
+					}
+					if !strict {
+						allStrict = false
+					}
 				}
 				// the node handed on as it is (to a function that deals with
 				// this kind of node) is no descent: remember the edge
-				if !strictPart(arg, node, 0) {
+				if !allStrict {
 					same[f] = append(same[f], callee)
 				}
 			}
 		}
-		_ = idx
 	}
 	// a cycle of calls that never descends would not be bounded by the tree
 	color := map[*ssa.Function]int{}
@@ -2074,11 +2232,52 @@ func scriptTainted(v ssa.Value, depth int) bool {
 				return true
 			}
 		}
+	case *ssa.Extract:
+		// a number handed back by one of the library's own functions
+		if cl, ok := v.Tuple.(*ssa.Call); ok {
+			return resultTainted(cl, v.Index, depth)
+		}
+	case *ssa.Call:
+		return resultTainted(v, 0, depth)
+	case *ssa.Parameter:
+		// a number handed in by the library's own callers
+		if taintProgram == nil || v.Parent() == nil || !isNumeric(v.Type()) {
+			return false
+		}
+		k := -1
+		for i, q := range v.Parent().Params {
+			if q == v {
+				k = i
+			}
+		}
+		for _, site := range staticCallSites(taintProgram, v.Parent()) {
+			if args := site.Common().Args; k >= 0 && k < len(args) && scriptTainted(args[k], depth+2) {
+				return true
+			}
+		}
+	}
+	return false
+}
+
+var taintProgram *Program
+
+func resultTainted(cl *ssa.Call, idx, depth int) bool {
+	c := cl.Call.StaticCallee()
+	if c == nil || fnPkg(c) == nil || !IsLibPath(fnPkg(c).Pkg.Path()) || !isNumeric(cl.Type()) && cl.Call.Signature().Results().Len() == 1 {
+		return false
+	}
+	for _, b := range c.Blocks {
+		if ret, ok := terminator(b).(*ssa.Return); ok && idx < len(ret.Results) {
+			if isNumeric(ret.Results[idx].Type()) && scriptTainted(returnOperand(ret, idx), depth+2) {
+				return true
+			}
+		}
 	}
 	return false
 }
 
 func ruleScriptIndex(p *Program, r *Reporter) {
+	taintProgram = p
 	for _, fn := range p.LibFns {
 		for _, b := range fn.Blocks {
 			for _, ins := range b.Instrs {
@@ -2533,60 +2732,115 @@ func ruleCtxFlow(p *Program, r *Reporter) {
 	// Prepare: on every success path SetContext(e.context) is applied to the
 	// machine built by vm.New
 	vmSet := methodOf(p, "vm", "VM", "SetContext")
-	var newCalls []ssa.CallInstruction
-	// the machine is built in Prepare itself or in a function Prepare calls
-	builder := a.prepare
-	if len(callsTo(builder, a.vmNew)) == 0 {
-		for _, g := range staticCalleesWithin(p, a.prepare, 2) {
-			if len(callsTo(g, a.vmNew)) > 0 {
-				builder = g
-			}
+	// the machine is built, and the context handed over, in Prepare itself or
+	// in functions Prepare calls: a function that builds the machine and can
+	// return without handing the context over leaves that to its caller
+	isSet := func(ins ssa.Instruction) bool {
+		c, ok := staticCalleeIs(ins, vmSet)
+		if !ok {
+			return false
 		}
+		u, ok := c.Common().Args[1].(*ssa.UnOp)
+		return ok && fieldKey(u.X) == "evalfilter.Eval.context"
 	}
-	newCalls = callsTo(builder, a.vmNew)
-	var setCalls []ssa.CallInstruction
-	for _, c := range callsTo(builder, vmSet) {
-		// argument is a load of Eval.context
-		if u, ok := c.Common().Args[1].(*ssa.UnOp); ok && fieldKey(u.X) == "evalfilter.Eval.context" {
-			setCalls = append(setCalls, c)
+	nSet, nNew := 0, 0
+	var leaks func(fn *ssa.Function, depth int) (builds bool, leak bool)
+	var alwaysSets func(fn *ssa.Function, depth int) bool
+	alwaysSets = func(fn *ssa.Function, depth int) bool {
+		if fn == nil || depth > 2 || len(fn.Blocks) == 0 || fnPkg(fn) == nil || fnPkg(fn).Pkg.Path() != Mod {
+			return false
 		}
-	}
-	if len(newCalls) == 0 {
-		r.Undecided("Prepare builds the machine", p.Pos(a.prepare.Pos()), "no call of vm.New in Prepare")
-		return
-	}
-	good := true
-	for _, nc := range newCalls {
-		// every success return reachable from nc passes a setCall
-		leak := false
+		// every path from the entry to a return passes a set
+		okAll := true
 		seen := map[*ssa.BasicBlock]bool{}
-		var walk func(b *ssa.BasicBlock, i int)
-		walk = func(b *ssa.BasicBlock, i int) {
-			for ; i < len(b.Instrs); i++ {
-				for _, sc := range setCalls {
-					if b.Instrs[i] == sc.(ssa.Instruction) {
-						return
-					}
+		var walk func(b *ssa.BasicBlock)
+		walk = func(b *ssa.BasicBlock) {
+			for _, ins := range b.Instrs {
+				if isSet(ins) {
+					return
 				}
-				if ret, ok := b.Instrs[i].(*ssa.Return); ok {
-					if isSuccessReturn(ret) {
-						leak = true
-					}
+				if cc := callOf(ins); cc != nil && cc.StaticCallee() != nil && alwaysSets(cc.StaticCallee(), depth+1) {
+					return
+				}
+				if _, ok := ins.(*ssa.Return); ok {
+					okAll = false
 					return
 				}
 			}
-			for _, s := range b.Succs {
-				if !seen[s] {
-					seen[s] = true
-					walk(s, 0)
+			for _, sc := range b.Succs {
+				if !seen[sc] {
+					seen[sc] = true
+					walk(sc)
 				}
 			}
 		}
-		walk(nc.Block(), instrIndex(nc.(ssa.Instruction))+1)
-		if leak {
-			good = false
+		walk(fn.Blocks[0])
+		return okAll
+	}
+	leaks = func(fn *ssa.Function, depth int) (bool, bool) {
+		builds, leak := false, false
+		for _, b := range fn.Blocks {
+			for i, ins := range b.Instrs {
+				isNew := false
+				if _, ok := staticCalleeIs(ins, a.vmNew); ok {
+					isNew = true
+					nNew++
+				} else if cc := callOf(ins); cc != nil && cc.StaticCallee() != nil && depth < 2 && fnPkg(cc.StaticCallee()) != nil && fnPkg(cc.StaticCallee()).Pkg.Path() == Mod && cc.StaticCallee() != fn {
+					if bl, lk := leaks(cc.StaticCallee(), depth+1); bl {
+						builds = true
+						isNew = lk
+					}
+				}
+				if !isNew {
+					continue
+				}
+				builds = true
+				// every (successful) return reachable from here passes a set
+				seen := map[*ssa.BasicBlock]bool{}
+				var walk func(b *ssa.BasicBlock, i int)
+				walk = func(b *ssa.BasicBlock, i int) {
+					for ; i < len(b.Instrs); i++ {
+						if isSet(b.Instrs[i]) {
+							return
+						}
+						if cc := callOf(b.Instrs[i]); cc != nil && cc.StaticCallee() != nil && alwaysSets(cc.StaticCallee(), 0) {
+							return
+						}
+						if ret, ok := b.Instrs[i].(*ssa.Return); ok {
+							if isSuccessReturn(ret) {
+								leak = true
+							}
+							return
+						}
+					}
+					for _, sc := range b.Succs {
+						if !seen[sc] {
+							seen[sc] = true
+							walk(sc, 0)
+						}
+					}
+				}
+				walk(b, i+1)
+			}
+		}
+		return builds, leak
+	}
+	builds, leak := leaks(a.prepare, 0)
+	if !builds || nNew == 0 {
+		r.Undecided("Prepare builds the machine", p.Pos(a.prepare.Pos()), "no call of vm.New in Prepare")
+		return
+	}
+	for _, fn := range append([]*ssa.Function{a.prepare}, staticCalleesWithin(p, a.prepare, 2)...) {
+		for _, b := range fn.Blocks {
+			for _, ins := range b.Instrs {
+				if isSet(ins) {
+					nSet++
+				}
+			}
 		}
 	}
+	good := !leak
+	setCalls := make([]int, nSet)
 	r.Check(good && len(setCalls) > 0, "Prepare hands the evaluator's context to the machine", p.Pos(a.prepare.Pos()), "SetContext(e.context) follows vm.New on every successful path", "Prepare can succeed without giving the machine the context set with SetContext: the deadline is silently ignored")
 	// the machine the context is given to is the one stored in Eval.machine
 	// and the one Execute runs
@@ -2663,4 +2917,109 @@ func ruleCtxFlow(p *Program, r *Reporter) {
 			}
 		}
 	}
+}
+
+// depthGuardHelper: h increments a counter field by one, compares it with a
+// constant, and its boolean result tells which side of that test was taken:
+// every return on the side where the counter is within the limit is the
+// constant passWhen, every other return is the opposite constant.
+func depthGuardHelper(h *ssa.Function) (passWhen bool, ok bool) {
+	rs := h.Signature.Results()
+	if rs.Len() != 1 || len(h.Blocks) == 0 {
+		return false, false
+	}
+	if b, isB := rs.At(0).Type().Underlying().(*types.Basic); !isB || b.Kind() != types.Bool {
+		return false, false
+	}
+	for _, b := range h.Blocks {
+		iff, isIf := terminator(b).(*ssa.If)
+		if !isIf {
+			continue
+		}
+		bo, isBo := iff.Cond.(*ssa.BinOp)
+		if !isBo {
+			continue
+		}
+		// which successor is "within the limit"
+		within := -1
+		var counter ssa.Value
+		_, cy := bo.Y.(*ssa.Const)
+		_, cx := bo.X.(*ssa.Const)
+		switch {
+		case cy && (bo.Op == token.GTR || bo.Op == token.GEQ):
+			within, counter = 1, bo.X
+		case cy && (bo.Op == token.LSS || bo.Op == token.LEQ):
+			within, counter = 0, bo.X
+		case cx && (bo.Op == token.GTR || bo.Op == token.GEQ):
+			within, counter = 0, bo.Y
+		case cx && (bo.Op == token.LSS || bo.Op == token.LEQ):
+			within, counter = 1, bo.Y
+		default:
+			continue
+		}
+		// the counter: a field that a store of (field + 1) before the test wrote
+		key := ""
+		for _, o := range origins(counter) {
+			if u, isU := o.(*ssa.UnOp); isU && u.Op == token.MUL && fieldKey(u.X) != "" {
+				key = fieldKey(u.X)
+			}
+			if bo2, isB2 := o.(*ssa.BinOp); isB2 && bo2.Op == token.ADD {
+				if u, isU := bo2.X.(*ssa.UnOp); isU && fieldKey(u.X) != "" {
+					key = fieldKey(u.X)
+				}
+			}
+		}
+		if key == "" {
+			continue
+		}
+		inc := false
+		for _, b2 := range h.Blocks {
+			for _, ins := range b2.Instrs {
+				if st, isSt := ins.(*ssa.Store); isSt && fieldKey(st.Addr) == key && (b2 == b || b2.Dominates(b)) {
+					if bo3, isB3 := st.Val.(*ssa.BinOp); isB3 && bo3.Op == token.ADD {
+						if n, isC := constInt(bo3.Y); isC && n == 1 {
+							inc = true
+						}
+					}
+				}
+			}
+		}
+		if !inc || len(b.Succs[within].Preds) != 1 {
+			continue
+		}
+		wb := b.Succs[within]
+		// returns: constants, one value inside, the other outside
+		var inside, outside []bool
+		for _, rb := range h.Blocks {
+			ret, isRet := terminator(rb).(*ssa.Return)
+			if !isRet {
+				continue
+			}
+			c, isC := returnOperand(ret, 0).(*ssa.Const)
+			if !isC || c.Value == nil || c.Value.Kind() != constant.Bool {
+				return false, false
+			}
+			if rb == wb || wb.Dominates(rb) {
+				inside = append(inside, constant.BoolVal(c.Value))
+			} else {
+				outside = append(outside, constant.BoolVal(c.Value))
+			}
+		}
+		if len(inside) == 0 || len(outside) == 0 {
+			continue
+		}
+		pw := inside[0]
+		for _, v := range inside {
+			if v != pw {
+				return false, false
+			}
+		}
+		for _, v := range outside {
+			if v == pw {
+				return false, false
+			}
+		}
+		return pw, true
+	}
+	return false, false
 }
